@@ -31,6 +31,19 @@ CHECKS.update({
          "DESIGN.md §4 C20"),
 })
 
+CHECKS.update({
+ "C13": ("exploration",
+         "deterministic simulation: seeded block-timestamp schedules (1 ms steps, multi-day gaps, jumps to +-1 ms / +-1 s around 1 Jan of leap, non-leap and century years), bonded stake moved by delegations and slashing, governance changing coefficient / toggling minting, cap drawn at/just above/below supply; per-block independent 18-decimal fixed-point reference (accept set over all evaluation orders), cap and activation rules",
+         "For every block of every sampled history the minted amount (supply delta across EndBlock = fee-collector delta) must be a member of the finite set of values the statement's formula can take in 18-decimal fixed point (10 evaluation orders + exact rational), with the cap remainder rule, zero while disabled and zero in the first block after every activation; supply never lifted above the cap.",
+         "Reads bonded tokens, parameters and balances through the application's own keepers; the statement leaves the evaluation order open, so the oracle accepts any order (a wrong year length, truncation or coefficient scale lands outside the set).",
+         "DESIGN.md §4 C13"),
+ "C17": ("exploration",
+         "deterministic simulation: seeded load around the gas target (exact 21000-gas transfers, over-declared gas, ante failures, byzantine overfilled blocks), governance parameter changes, crash-restart between blocks; reference EIP-1559 step and gas-figure max(gasWanted x multiplier, gasUsed) computed from observed per-tx outcomes for every block",
+         "For every block executed with the base fee enabled the stored gas figure and the next block's base fee must equal the reference computed from observed transaction outcomes (which txs passed the ante handler, their declared and used gas) with integer divisions exactly as in the statement; lower bound by the minimum gas price.",
+         "Whole-domain monotonicity is implied only through equality with the (monotone) reference at sampled points; fractional min gas prices: floor or ceiling accepted as the bound.",
+         "DESIGN.md §4 C17"),
+})
+
 NOT_YET = {}  # id -> reason (filled below)
 NA = {
  "C18": "pure function of one input (wrap -> encode -> decode -> unwrap of one Ethereum tx): no schedule, clock, fault, crash or second party can change its result, so deterministic simulation with fault injection has nothing to decide; see DESIGN.md §4 C18",
